@@ -153,11 +153,82 @@ func c04Program(d c04Dims) []string {
 
 var c04Opt = sess.Options{}
 
+// c04IterClosures: a function literal written directly in the iterator expression of a for statement is a closure of
+// the function that contains the statement, like one written a line earlier: it shares that function's variables
+// until the function returns and keeps their last values afterwards (Readme, "Closure variables are shared with the
+// defining function until the defining function returns"). Each item gives the program with the literal inline and
+// the documented answer; the same program with the literal bound to a variable before the loop is run as a control.
+type c04IterItem struct {
+	Name    string
+	Inline  []string
+	Control []string
+	Want    string
+}
+
+func c04IterItems() []c04IterItem {
+	mk := func(name, head, loopInline, loopControl, tail, call, want string) c04IterItem {
+		body := func(pre, loop string) []string {
+			st := []string{"twice = (f) -> {\n  yield f\n  yield f\n}", "def = () -> {\n  x = 1\n" + head + pre + loop + tail + "}"}
+			return append(st, strings.Split(call, " ; ")...)
+		}
+		return c04IterItem{name, body("", loopInline), body("  c = () -> x\n", loopControl), want}
+	}
+	return []c04IterItem{
+		mk("escaped-through-elems", "  k = 0\n", "  for g <- elems([() -> x]) k = g\n", "  for g <- elems([c]) k = g\n", "  x = 5\n  k\n", "h = def() ; h()", "i:5"),
+		mk("escaped-through-own-generator", "  k = 0\n", "  for g <- twice(() -> x) k = g\n", "  for g <- twice(c) k = g\n", "  x = 5\n  k\n", "h = def() ; h()", "i:5"),
+		mk("called-by-the-definer-after-an-update", "  r = 0\n", "  for g <- elems([() -> x]) {\n    x = 2\n    r = g()\n  }\n", "  for g <- elems([c]) {\n    x = 2\n    r = g()\n  }\n", "  r\n", "def()", "i:2"),
+	}
+}
+
+func c04IterJudge(name string) (sig, detail string) {
+	for _, it := range c04IterItems() {
+		if it.Name != name {
+			continue
+		}
+		run := func(stmts []string) (string, string) {
+			s := impl.NewSession()
+			last := ""
+			for _, src := range stmts {
+				pr := impl.ParseCached(src)
+				if pr.Err != "" || len(pr.Trees) != 1 {
+					return "", "generated statement does not parse: " + src
+				}
+				r := s.RunTree(pr.Trees[0], 200000)
+				if r.Panic != "" || r.FuelOut {
+					return "", "host fault: " + r.Panic
+				}
+				if r.Err != "" {
+					last = "ERR " + r.Err
+				} else {
+					last = r.Canon
+				}
+			}
+			return last, ""
+		}
+		ctl, herr := run(it.Control)
+		if herr != "" {
+			return "harness:iter-closure-control", herr
+		}
+		if ctl != it.Want {
+			return "closure-before-loop-differs-from-documented", fmt.Sprintf("%s: with the function literal bound before the loop the program gives %s, documented %s", it.Name, ctl, it.Want)
+		}
+		got, herr := run(it.Inline)
+		if herr != "" {
+			return "harness:iter-closure", herr
+		}
+		if got != it.Want {
+			return "closure-in-iterator-expression-detached", fmt.Sprintf("%s: program %q gives %s; the documented answer, and what the same literal bound one statement before the loop gives, is %s", it.Name, it.Inline[1], got, it.Want)
+		}
+		return "", ""
+	}
+	return "harness:bad-payload", "unknown item " + name
+}
+
 func init() {
 	core.Register(&core.Check{
 		ID:    "C04",
 		Level: "exploration",
-		Rule: "scope skeletons = the full product of: a global of the same name exists or not x the definer has 0 / 1 / 2 / 3 / 199 other locals before x x x is not defined in the definer / a parameter / a local / a for variable x 11 inner function shapes (plain read, own local, shadowing parameter, shadowing assignment, a second nesting level with and without the documented explicit copy, a body that assigns the caller's names, one that assigns its parameter, reads of other names, reads inside a loop, a for variable of the same name) x the captured variable is left alone / updated / updated after stack growth (by pushes, by frames with locals, by one wide frame) / updated in a loop after the inner function was created x the inner function is called, passed down, passed through another function, returned, returned inside an array, returned inside a nested array x (for escaped functions) stack churn by deep recursion / an allocating loop / further calls of the definer; plus recursive definers at depth 3/50/200. Every write stores a unique tag. " +
+		Rule: "scope skeletons = the full product of: a global of the same name exists or not x the definer has 0 / 1 / 2 / 3 / 199 other locals before x x x is not defined in the definer / a parameter / a local / a for variable x 11 inner function shapes (plain read, own local, shadowing parameter, shadowing assignment, a second nesting level with and without the documented explicit copy, a body that assigns the caller's names, one that assigns its parameter, reads of other names, reads inside a loop, a for variable of the same name) x the captured variable is left alone / updated / updated after stack growth (by pushes, by frames with locals, by one wide frame) / updated in a loop after the inner function was created x the inner function is called, passed down, passed through another function, returned, returned inside an array, returned inside a nested array x (for escaped functions) stack churn by deep recursion / an allocating loop / further calls of the definer; plus recursive definers at depth 3/50/200; plus three directed programs in which the inner function is written directly in the iterator expression of a for statement (escaping through elems, through a generator of the program, called by the definer after an update), each with the same literal bound one statement before the loop as a control. Every write stores a unique tag. " +
 			"Oracle: every value read equals the reference model's by-name resolution (own, else one-level captured, else global); globals, the caller's variables and its argument are rendered before and after every call and must be unchanged; escaped functions must keep reading the tags their captured variables had when the definer returned. distinct = distinct program; non-trivial = programs inside the described domain in which the inner function ran",
 		Assumptions: []string{"reference model refsem (by-name scoping with one retained level)", "programs whose reads resolve differently under the lexical and the dynamic rule (D-use-before-def) are skipped and counted"},
 		Exec: func(payload string) (string, string) {
@@ -169,10 +240,18 @@ func init() {
 				}
 				return c04FreshJudge(it.Fresh)
 			}
+			if strings.HasPrefix(payload, `{"iterclosure"`) {
+				impl.Init()
+				var it struct{ Iterclosure string }
+				if err := json.Unmarshal([]byte(payload), &it); err != nil {
+					return "harness:bad-payload", err.Error()
+				}
+				return c04IterJudge(it.Iterclosure)
+			}
 			return sessExec(c04Opt)(payload)
 		},
 		Shrink: func(payload, sig string) string {
-			if strings.HasPrefix(payload, `{"fresh"`) {
+			if strings.HasPrefix(payload, `{"fresh"`) || strings.HasPrefix(payload, `{"iterclosure"`) {
 				return payload
 			}
 			return sessShrink(c04Opt)(payload, sig)
@@ -320,6 +399,18 @@ func c04Run(w *core.W) {
 					}
 				}
 			}
+		}
+	}
+	// function literals written in an iterator expression (directed; the failing ones are listed in known_findings.json)
+	w.Family("closures-in-iterator-expressions")
+	for _, it := range c04IterItems() {
+		b, _ := json.Marshal(map[string]string{"iterclosure": it.Name})
+		if !w.Mine(string(b)) {
+			continue
+		}
+		w.NonTrivial()
+		if sig, detail := c04IterJudge(it.Name); sig != "" {
+			w.Fail(string(b), sig, detail)
 		}
 	}
 	w.Family("recursive-definers")
